@@ -274,6 +274,7 @@ def run(F, rep, tier):
     escaper_fold_rule(F, rep, escapers)
     number_carrier_rule(F, rep)
     fresh_scope_rule(F, rep)
+    finite_number_rule(F, rep)
 
     # ---------------- R18.1
     all_impls = {n: h for n, h in F.hir.items() if n.endswith("as dmntk_common::jsonify::Jsonify>::jsonify")}
@@ -772,3 +773,41 @@ def fresh_scope_rule(F, rep):
                 else:
                     rep.undecided(rid, key, "the origin of the scope handed to %s is not a construction in this function" % c["callee"].split("::")[-1])
     rep.floor(rid, "scopes handed to the evaluator by the server", n, 1)
+
+
+def finite_number_rule(F, rep):
+    """R18.12: JSON has no notation for Infinity / NaN, and the arithmetic of the library can produce such numbers (overflow of + - * /, exp, decimal: the C02 findings).  The JSON
+    text of a number must therefore be produced under a test that the number is finite: in every `jsonify` of the number type the conversion of the decimal to text is
+    reached only on the true branch of a finiteness test."""
+    from facts import find_hir
+    rid = rep.rule("R18.12", "the JSON text of a number is produced under a finiteness test (Infinity / NaN are not JSON)")
+    n = 0
+    for name, h in sorted(F.hir.items()):
+        if not (name.endswith("::jsonify") and "FeelNumber" in name and name.startswith("<dmntk_feel_number")) and name != "dmntk_feel_number::number::FeelNumber::jsonify":
+            continue
+        n += 1
+        key = "finite:%s" % name
+        where = "%s:%s" % (h["file"], h["line"])
+        def of_self(x):
+            return bool(find_hir(x, lambda y: y.get("k") == "Path" and y.get("res") == "local" and y.get("name") == "self"))
+        texts = find_hir(h["body"], lambda x: x.get("k") in ("Call", "MethodCall") and of_self(x) and re.search(r"dec_to_string|to_string|scientific_to_plain|format|write", str(x.get("callee") or x.get("method") or "")))
+        if not texts:
+            rep.undecided(rid, key, "no conversion of the decimal to text found in %s" % name)
+            continue
+        unguarded = []
+        for c, ps in texts:
+            ok = False
+            for i, q in enumerate(ps):
+                if isinstance(q, dict) and q.get("k") == "If" and find_hir(q.get("c", {}), lambda y: y.get("k") in ("Call", "MethodCall") and re.search(r"is_finite|dec_is_finite", str(y.get("callee") or y.get("method") or ""))):
+                    nxt = ps[i + 1] if i + 1 < len(ps) else c
+                    if q.get("then") is nxt or find_hir(q.get("then", {}), lambda y: y is c):
+                        neg = q.get("c", {}).get("k") == "Unary" and q["c"].get("op") == "!"
+                        ok = not neg
+            if not ok:
+                unguarded.append(c)
+        if unguarded:
+            rep.violation(rid, key, "%s renders the decimal as text (line %s) without a test that it is finite: an overflowing result (10**6144*10, exp(100000)) is answered as "
+                          "`{\"data\":Infinity}`, which is not a JSON document" % (name, unguarded[0].get("l")), where)
+        else:
+            rep.ok(rid, key, "text conversion only on the finite branch")
+    rep.floor(rid, "jsonify implementations of the number type", n, 1)
